@@ -465,6 +465,19 @@ def np_eval_node(node, vals):
         return _np_group_sum(ins[0], np.asarray(p["by"]), p["axis"] % ins[0].ndim, p["num_groups"], np.dtype(p["dtype"]))
     if op == "merge_chunks":
         return ins[0]
+    if op == "blocks":
+        # x.blocks[key]: the selected blocks of the declared chunk grid, concatenated
+        a = ins[0]
+        ch = p["in_chunks"]
+        out = a
+        for ax, (k, c, d) in enumerate(zip(dec_key(p["key"]), ch, a.shape)):
+            nb = max(1, -(-d // c))
+            sel = list(range(nb))[k] if isinstance(k, slice) else ([int(i) % nb if -nb <= int(i) < nb else nb for i in k] if isinstance(k, np.ndarray) else [list(range(nb))[k]])
+            if any(i >= nb for i in sel):
+                raise IndexError("block index out of range")
+            parts = [np.take(out, range(i * c, min(d, (i + 1) * c)), axis=ax) for i in sel]
+            out = np.concatenate(parts, axis=ax) if parts else np.take(out, [], axis=ax)
+        return out
     if op == "map_blocks_addid":
         # block_id-dependent user function: evaluated per block of the declared chunk grid of the input
         a = ins[0]
@@ -720,6 +733,11 @@ def cu_eval_node(node, vals, env, idx):
             ins[0], np.asarray(p["by"], dtype=np.int64), func=_gbb_func, axis=p["axis"] % ins[0].ndim, dtype=dt,
             num_groups=p["num_groups"], groupby_dtype=dt,
         )
+    if op == "blocks":
+        if list(ins[0].chunksize) != list(p["in_chunks"]):
+            raise NotImplementedError("harness: input chunking differs from the one the reference assumed")
+        key = dec_key(p["key"], arr_as=lambda v: [int(i) for i in v])
+        return ins[0].blocks[key if len(key) > 1 else key[0]]
     if op == "merge_chunks":
         from cubed.core.ops import merge_chunks
 
@@ -1585,7 +1603,28 @@ class Gen:
     def fam_misc(self):
         rng = self.rng
         op = rng.choice(["diff", "diff", "searchsorted", "isin", "map_blocks", "map_overlap_sum3", "gufunc_mean_last", "gufunc_outer_add",
-                         "groupby_sum", "groupby_blockwise_sum", "merge_chunks", "map_blocks_addid"])
+                         "groupby_sum", "groupby_blockwise_sum", "merge_chunks", "map_blocks_addid", "blocks", "blocks"])
+        if op == "blocks":
+            i = self._add(self.new_leaf(ndim=rng.choice([1, 1, 2, 3])))
+            a = self._vals[i]
+            if a.ndim == 0 or a.size == 0:
+                return False
+            ch = list(self._nodes[i]["p"]["chunks"])
+            key = []
+            used_arr = False
+            for c, d in zip(ch, a.shape):
+                nb = max(1, -(-d // c))
+                r = rng.random()
+                if r < 0.3:
+                    key.append(rng.randrange(-nb, nb))
+                elif r < 0.55 and not used_arr:
+                    used_arr = True
+                    key.append([rng.randrange(-nb, nb) for _ in range(rng.randint(1, 3))])
+                elif r < 0.8:
+                    key.append(slice(rng.choice([None, rng.randrange(nb)]), rng.choice([None, rng.randint(1, nb)]), rng.choice([None, None, 2])))
+                else:
+                    key.append(slice(None))
+            return self._add({"op": "blocks", "in": [i], "p": {"key": enc_key(key), "in_chunks": ch}}) is not None
         if op in ("groupby_sum", "groupby_blockwise_sum"):
             nd = rng.choice([1, 2, 2, 3])
             dt = rng.choice(["int64", "float64", "int32"])
@@ -1930,6 +1969,28 @@ def _sweep_specs():
         S.append(("triu", (2,), {"k": k}))
     for ax in (-1, -2, 0, 1):
         S.append(("vecdot", (2, 2), {"axis": ax}))
+    # the blocks accessor: ordered block selections of a 1-d array with a short last block, and of a 2-d array
+    for i_ in range(4):
+        S.append(("blocks", (1,), {"_key_raw": [i_ - 4], "_in_shape": [10], "_in_chunks": [3]}))
+        for j_ in range(4):
+            if i_ != j_:
+                S.append(("blocks", (1,), {"_key_raw": [[i_, j_]], "_in_shape": [10], "_in_chunks": [3]}))
+    for k0 in ([1, 0], [0, 1], 1, slice(None, None, -1) if False else slice(0, 2)):
+        for k1 in (slice(None), 2, [2, 0], slice(1, 3)):
+            if isinstance(k0, list) and isinstance(k1, list):
+                continue
+            S.append(("blocks", (2,), {"_key_raw": [k0, k1], "_in_shape": [6, 5], "_in_chunks": [4, 2]}))
+    # reshape: split a dimension / merge two dimensions, for every chunking of the dimension(s) involved
+    for n in (6, 8, 10, 12):
+        facts = [(a, n // a) for a in range(2, n) if n % a == 0]
+        for a, b in facts:
+            for c in range(1, n + 1):
+                if (n * 31 + a * 7 + c) % 2:
+                    continue
+                S.append(("reshape", (1,), {"shape": [a, b], "_in_shape": [n], "_in_chunks": [c]}))
+            for ca in range(1, a + 1):
+                for cb in sorted({1, b, max(1, b // 2), max(1, b - 1)}):
+                    S.append(("reshape", (2,), {"shape": [n], "_in_shape": [a, b], "_in_chunks": [ca, cb]}))
     return S
 
 
@@ -1976,7 +2037,14 @@ def param_sweep(seed, index=0, of=1):
             if newat == len(combo):
                 key.append(None)
             p["key"] = enc_key(key)
+        if "_in_shape" in p:
+            shapes = [p.pop("_in_shape")]
         nodes = [g.new_leaf(shape=s, dtype=dt) for s in shapes]
+        if "_in_chunks" in p:
+            nodes[0]["p"]["chunks"] = p.pop("_in_chunks")
+        if "_key_raw" in p:
+            p["key"] = enc_key(p.pop("_key_raw"))
+            p["in_chunks"] = list(nodes[0]["p"]["chunks"])
         if op in ("concat", "stack") and rng.random() < 0.5:
             nodes[1]["p"]["chunks"] = list(nodes[0]["p"]["chunks"]) if op == "stack" else nodes[1]["p"]["chunks"]
         nodes.append({"op": op, "in": list(range(len(shapes))), "p": p})
